@@ -76,6 +76,9 @@ type Conn struct {
 	closed  chan struct{}
 	closeMu sync.Mutex
 	closing bool
+	// wroteClose is set to 1 once a close frame has been handed to writeFrame.
+	// No other frame may follow it. Accessed atomically.
+	wroteClose int32
 
 	pingCounter   int32
 	activePingsMu sync.Mutex
